@@ -11,7 +11,7 @@ from ..harness import qcall, tree_hash
 
 ID = "C10"
 LEVEL = "exploration"
-BUDGET = {"quick": 800, "thorough": 120000}
+BUDGET = {"quick": 2400, "thorough": 120000}
 TECHNIQUE = "property-based testing: covering grid from the generator, bit-exact per dtype; exhaustive completion orders of the per-file tasks with a schedule-owning pool"
 RULE = ("Hypothesis-generated 3D plotfiles (1-3 nested levels, partial refinement, 1-4 binary files per level in any "
         "on-disk order, special-float payloads) x field x dtype in {float64, float32} x level limit (-l absent or "
@@ -25,7 +25,7 @@ ASSUMPTIONS = ["schedule-owning pool models imap_unordered as an arbitrary compl
 
 @st.composite
 def cases(draw, tier="quick"):
-    spec = draw(plotgen.plot_specs(ndims=3, min_levels=draw(st.sampled_from([2, 1, 2, 3])), max_cells=2500 if tier == "quick" else 8000, max_fields=5,
+    spec = draw(plotgen.plot_specs(thin=True, ndims=3, min_levels=draw(st.sampled_from([2, 1, 2, 3])), max_cells=2500 if tier == "quick" else 8000, max_fields=5,
                                    payload_kinds=("special", "coded", "random"),
                                    layouts=("scatter", "nonmono", "scatter", "single")))
     nlev = spec["mesh"]["nlev"]
